@@ -15,7 +15,7 @@ use flatty_base::{
     traits::{Flat, FlatDefault},
 };
 use stavec::{
-    traits::{Container, Length},
+    traits::{Length, Slot},
     GenericVec,
 };
 
@@ -100,7 +100,9 @@ unsafe impl TrustedRef for String {}
 #[cfg(feature = "alloc")]
 unsafe impl TrustedRef for CString {}
 
-unsafe impl<C: Container + ?Sized, L: Length> TrustedRef for GenericVec<C, L> {}
+// Only a container that is itself a reference keeps its bytes in place when the vector is moved
+// (an array container stores them inline: a moved `FlatWrap` would map them at an unchecked address).
+unsafe impl<'a, S: Slot, L: Length> TrustedRef for GenericVec<&'a mut [S], L> {}
 #[cfg(feature = "alloc")]
 unsafe impl TrustedRef for AlignedBytes {}
 
